@@ -322,6 +322,8 @@ class Impl(object):
     def out_line(self, cid):
         parts = []
         for ms, kind, payload in self.tr[cid].log:
+            if kind == 'wfault':
+                continue          # the refused write itself is the environment's doing, not an action of the broker
             if kind == 'w':
                 fr = parse_one(payload)
                 if fr is None:
@@ -373,6 +375,24 @@ class Impl(object):
 
 
 # ------------------------------------------------------------------------------------- model side
+def wfault_comparable(events):
+    """after `wfault c` the faulty connection is only published to, or ends (eof / lost); it had no deadline armed"""
+    faulty, armed = set(), set()
+    for ev in events:
+        k = ev[0]
+        if k == 'pause':
+            armed.add(ev[1])
+        elif k == 'resume':
+            armed.discard(ev[1])
+        if k == 'wfault':
+            if ev[1] in armed:
+                return False
+            faulty.add(ev[1])
+        elif k in ('data', 'pause', 'resume', 'fire', 'lookup_done', 'connect') and ev[1] in faulty:
+            return False
+    return True
+
+
 def model_lines(script, labels, chans):
     cfg = script['cfg']
     lines = ['b.reset', 'b.cfg %s %s' % (cfg['name'], cfg['mode'])]
@@ -853,8 +873,14 @@ def run_script(script, drv, res, want_model=True):
     res.note('mode.' + cfg['mode'])
     # ---- model (a write fault is outside the model's event vocabulary: such histories are judged by the monitors only)
     if any(e[0] == 'wfault' for e in script['events']):
-        res.note('monitor-only.write-fault')
-        want_model = False
+        # the model covers a write refused INSIDE Server.publish (Model/BrokerFault.lean: the try/except around every
+        # recipient).  A faulty transport that the broker writes to on any other path (an OP_ERROR answering the
+        # connection's own frames, its deadline task) is outside it: those histories stay with the monitors.
+        if wfault_comparable(script['events']):
+            res.note('model.write-fault')
+        else:
+            res.note('monitor-only.write-fault')
+            want_model = False
     if any(e[0] == 'connect' and len(e) > 3 for e in script['events']):
         res.note('monitor-only.no-peername')
         want_model = False
@@ -1209,6 +1235,8 @@ def gen_script(rng, tier, profile):
     def due():
         return [c for c, t in deadlines.items() if t <= impl.loop.ms]
 
+    quiet = set()     # connections with an injected write fault that send nothing more
+
     def quiesce():
         for cid, t in list(impl.tr.items()):
             if t.closing and not t.gone:
@@ -1227,7 +1255,7 @@ def gen_script(rng, tier, profile):
             for c in due():
                 do(['fire', c])
                 deadlines.pop(c, None)
-            live = [cid for cid, t in impl.tr.items() if not t.closing and not t.paused and not t.gone]
+            live = [cid for cid, t in impl.tr.items() if not t.closing and not t.paused and not t.gone and cid not in quiet]
             r = rng.random()
             if (not impl.tr or (r < 0.15 and len(impl.tr) < maxconn)):
                 cid = g.next_id
@@ -1244,7 +1272,12 @@ def gen_script(rng, tier, profile):
                 subs_now = [c for c in live if impl.conns[c].active_subscriptions]
                 if len(subs_now) >= 2:
                     wfault_at = None
-                    do(['wfault', rng.choice(subs_now)])
+                    victim = rng.choice(subs_now)
+                    do(['wfault', victim])
+                    # most faulty connections stay silent afterwards (they are only published to, or end): those
+                    # histories are inside the model's vocabulary (stepF) and are compared with it event by event
+                    if victim not in deadlines and rng.random() < 0.7:
+                        quiet.add(victim)
                     continue
             if mode == 'sync' and g.rows and rng.random() < {'preauth': 0.08, 'reauth': 0.08, 'spoof': 0.06, 'acl': 0.06, 'adversary': 0.04}.get(profile, 0.0):
                 do(g.store_change())
@@ -1278,7 +1311,7 @@ def gen_script(rng, tier, profile):
                     continue
             ws = {'stall': 0.35}.get(profile, 0.04)
             if r < 0.15 + wl + ws and impl.tr:
-                cands = [cid for cid, t in impl.tr.items() if not t.gone]
+                cands = [cid for cid, t in impl.tr.items() if not t.gone and cid not in quiet]
                 if cands:
                     cid = rng.choice(cands)
                     if cid in deadlines:
